@@ -2,7 +2,7 @@
    Theorem statements only; proofs live in Proofs/ConsumerC14.v (and ConsumerInv.v for the run-level ones).
    Model: Model/Consumer.v (afkak/consumer.py:290-1131).  Never weaken a statement here. *)
 From Coq Require Import QArith Qminmax.
-From AV Require Import Base.Util Model.Consumer Proofs.ConsumerBase Proofs.ConsumerC14.
+From AV Require Import Base.Util Model.Consumer Proofs.ConsumerBase Proofs.ConsumerC14 Proofs.ConsumerInv Proofs.ConsumerRun Proofs.ConsumerLimit.
 Open Scope Z_scope.
 
 (* ---------------- buffer growth: x16 while <= 2^20, else x2, clipped to the maximum; fails iff already at it ------- *)
@@ -113,6 +113,42 @@ Print Assumptions C14_unlimited.
 Theorem C14_limited : forall s, 0 < s_maxatt s -> (exhausted s = true <-> s_maxatt s <= s_att s).
 Proof. exact limited_exhausted_iff. Qed.
 Print Assumptions C14_limited.
+
+(* ---------------- back-off index over whole runs ---------------- *)
+(* for EVERY event sequence from the initial state: the delays scheduled for refetches are numbered 0, 1, 2, ... since the
+   last successful offset / fetch reply (backoff_trace restarts the count at every reply that answers the outstanding
+   request successfully); all_fuel_ok: the interpreter of nested callback chains never ran out of fuel *)
+Theorem C14_backoff_index : forall n0 fuel evs c buf,
+  all_fuel_ok (run_steps fuel (init c n0 buf) evs) = true ->
+  backoff_trace 0 (run_steps fuel (init c n0 buf) evs) = true.
+Proof. intros. apply (backoff_run n0 fuel evs (init c n0 buf)); [apply reach_init | assumption]. Qed.
+Print Assumptions C14_backoff_index.
+(* one step, from any reachable state: the indices scheduled in the step continue the state's counter *)
+Theorem C14_backoff_step : forall n0 fuel s e s' o, Reach n0 s -> step fuel s e = (s', o) -> fuel_ok o = true ->
+  backoff_step (s, e, o, s') = true.
+Proof. exact backoff_reachable. Qed.
+Print Assumptions C14_backoff_step.
+
+(* ---------------- attempt limit over whole runs ---------------- *)
+(* limit_run n0 f tr (Model/Consumer.v): f counts the consecutive failed offset/fetch attempts (reset by a successful reply
+   and by an accepted start); after every step, if n0 > 0 and the start Deferred is still pending then f < n0 - i.e. by the
+   n0-th consecutive failure at the latest the start Deferred has fired.  For EVERY event sequence. *)
+Theorem C14_attempt_limit : forall n0 fuel evs c buf,
+  all_fuel_ok (run_steps fuel (init c n0 buf) evs) = true ->
+  limit_run n0 0 (run_steps fuel (init c n0 buf) evs) = true.
+Proof.
+  intros. apply limit_run_holds; [apply reach_init | apply LI_zero; apply (proj1 (Jtop_init n0 c buf)) | assumption].
+Qed.
+Print Assumptions C14_attempt_limit.
+(* limit 0 = retry for ever: in no reachable state does the count end the consumer, except while shutdown() has
+   suspended the unlimited retries (flag s_susp = _unlimited_retries_suspended, cleared by the stop() that ends the
+   shutdown: C13_every_stop_quiescent); with a limit n0 > 0 the limit in force is always n0 *)
+Theorem C14_unlimited_reachable : forall n0 s, Reach n0 s -> n0 = 0 -> s_susp s = false -> exhausted s = false.
+Proof. exact unlimited_reachable. Qed.
+Print Assumptions C14_unlimited_reachable.
+Theorem C14_limit_in_force : forall n0 s, Reach n0 s -> 0 < n0 -> s_maxatt s = n0 /\ s_susp s = false.
+Proof. exact limited_reachable. Qed.
+Print Assumptions C14_limit_in_force.
 
 (* ---------------- the delays: index k of the recurrence the code runs = min (init * F^k) max, over Q --------------- *)
 Theorem C14_delay_closed_form : forall init F mx : Q, (0 <= init)%Q -> (init <= mx)%Q -> (1 <= F)%Q ->
